@@ -1,0 +1,55 @@
+//go:build verif
+
+package gradtrack
+
+import (
+	"sync/atomic"
+
+	"github.com/sahandsafizadeh/qeep/tensor/internal/tensor"
+)
+
+// Verification hooks (build tag "verif"); see /verif/DESIGN.md section 1.3.
+// They only observe: nothing here changes what the library computes.
+
+// VerifRuleFunc is told about every application of a backward rule: edge
+// identifies the back edge (comparable, stable for the life of the graph) and
+// target is the tensor that is about to receive the gradient share.
+type VerifRuleFunc func(edge any, target tensor.Tensor)
+
+var verifRuleHook atomic.Pointer[VerifRuleFunc]
+
+func VerifSetRuleHook(f VerifRuleFunc) {
+	if f == nil {
+		verifRuleHook.Store(nil)
+	} else {
+		verifRuleHook.Store(&f)
+	}
+}
+
+func verifRule(e *backwardEdge) {
+	if f := verifRuleHook.Load(); f != nil {
+		(*f)(e, e.target)
+	}
+}
+
+// VerifState is a read-only view of a tensor's gradient context.
+type VerifState struct {
+	Tracked   bool
+	BPDirty   bool
+	BackEdges int
+	HasGrad   bool
+}
+
+func VerifStateOf(ctx any) (s VerifState, ok bool) {
+	gctx, ok := ctx.(*GradContext)
+	if !ok || gctx == nil {
+		return s, false
+	}
+
+	return VerifState{
+		Tracked:   gctx.tracked,
+		BPDirty:   gctx.bpdirty,
+		BackEdges: len(gctx.backEdges),
+		HasGrad:   gctx.gradient != nil,
+	}, true
+}
